@@ -185,6 +185,8 @@ pub struct Sim {
     pub train_layer_count: usize,
     /// the persistent optimizer a running training span borrows (other actors must not use it meanwhile)
     pub train_opt_in_use: Option<usize>,
+    /// an evaluation forward happened after a backward: a further backward (gradient accumulation) is legal
+    pub train_eval_pending: bool,
 }
 
 pub const EXACT_BOUND_F64: f64 = 1125899906842624.0; // 2^50
@@ -280,6 +282,7 @@ impl Sim {
             train_frozen_flags: Vec::new(),
             train_layer_count: 0,
             train_opt_in_use: None,
+            train_eval_pending: false,
         }
     }
 
@@ -1531,7 +1534,8 @@ impl Sim {
         let model_pinned = self.model_pins.iter().any(|(n, it)| {
             self.g.nodes[*n].alias == self.g.nodes[l].alias && (self.model_output_iter == Some(*it) || self.held.iter().any(|h| h.tag == *it && h.what == "kept model output"))
         });
-        if self.protected.contains(&l) || model_pinned {
+        let protected_alias = self.protected.iter().any(|n| self.g.nodes[*n].alias == self.g.nodes[l].alias);
+        if self.protected.contains(&l) || protected_alias || model_pinned {
             // a live model parameter seen through an observer's handle: the layer holds it too
             match res {
                 Ok(_) => self.cnt.retire_control_ok += 1,
